@@ -479,7 +479,7 @@ class _Flat:
                 self.depth -= 1
             elif k == '!':
                 self.emit('!', 'not', ov)
-            elif k in ('&&', '||', '|'):
+            elif k in ('&&', '||', '|', '&', '|||', '&&&'):  # the last three only in malformed variants
                 self.emit(k, 'op', ov)
             else:
                 template, eol = _leaf_template(host, it[1])
@@ -568,7 +568,7 @@ def plain_layout(tokens):
 
 # ---- malformation -----------------------------------------------------------------------------------------------------
 MUTATIONS = ['dup-op', 'drop-operand', 'drop-close', 'drop-open', 'extra-close', 'empty-parens', 'leading-op',
-             'lonely-not', 'glue-open', 'glue-close']
+             'lonely-not', 'glue-open', 'glue-close', 'half-op', 'long-op']
 
 
 def _lists(items, host, tail_safe, acc):
@@ -632,6 +632,13 @@ def malform(items, host, mutation, tape):
                 if it[0] in ('&&', '||', '|'):
                     for o in ops_of(h):
                         cands.append((L, 'ins', i + 1, [[o]]))
+        elif mutation in ('half-op', 'long-op'):
+            # an operator written with one character too few / too many, at every position of a chain
+            # (a lone `|` is the composition operator of transformers only; `||` is no transformer operator)
+            repl = ({'&&': '&', '||': '|'} if mutation == 'half-op' else {'&&': '&&&', '||': '|||', '|': '||'})
+            for i, it in enumerate(L):
+                if it[0] in repl and not (h == 'tr' and mutation == 'half-op'):
+                    cands.append((L, 'rep', i, i + 1, [[repl[it[0]]]]))
         elif mutation == 'drop-operand':
             for (a, b) in spans:
                 # the operand to the right of an infix operator (with its `!` prefixes)
